@@ -67,6 +67,7 @@ def run_worker(prop, o, tier, twin, excluded):
     if excluded:
         args += ['--exclude', ','.join(sorted(excluded))]
     budget = min(o.timeout, 120.0) if twin else o.timeout
+    args += ['--timeout', '%.1f' % budget]  # the (scaled) CPU budget; the worker would otherwise use the harness' own
     return run_child(ENGINE_PY, 'vsym.worker', args, budget * float(os.environ.get('VSYM_WALL_FACTOR', '3')) + 120)
 
 
